@@ -199,7 +199,57 @@ def c17_5(ctx):
     return out
 
 
+def _check_pow_cells(ctx):
+    """Block.check_pow with hash256 and target() as stand-ins: the function only compares an integer made from the hash with the
+    target, so the cells are hash <, =, > target -- taken for hashes whose little- and big-endian readings are ordered either way, with
+    and without zero bytes at either end, and for targets around both readings and an easy (regtest-like) one"""
+    from sa.cells import Evaluator, Obj, Raised, Undecided
+    spec = "block:Block.check_pow"
+    mod, fn = rl.get(ctx, spec)
+    hashes = [bytes(range(1, 33)), bytes(range(32, 0, -1)), bytes(range(1, 29)) + bytes(4), bytes(4) + bytes(range(1, 29))]
+    cells = 0
+    for h in hashes:
+        le, be = int.from_bytes(h, "little"), int.from_bytes(h, "big")
+        for T in (le - 1, le, le + 1, be - 1, be, be + 1, 1 << 255, 1):
+            cells += 1
+            me = Obj("block", "Block", {"version": 1, "prev_block": bytes(32), "merkle_root": bytes(32), "timestamp": 0, "bits": b"\xff\xff\x00\x1d", "nonce": bytes(4)})
+
+            def opaque(name, args, kw, h=h):
+                if name == "hash256":
+                    return h
+                if name == "bits_to_target":
+                    return T
+                return NotImplemented
+            hooks = {("Block", "serialize"): lambda o: b"HEADER", ("Block", "target"): lambda o, T=T: T}
+            try:
+                r = Evaluator(ctx.repo, opaque=opaque, method_hooks=hooks).call(spec, [], self_obj=me)
+            except Raised as x:
+                return [ctx.bad(spec, "check_pow raises %s" % x.name, fn, mod, key="pow-relation")]
+            if not isinstance(r, bool):
+                raise Undecided("verdict %r" % (r,))
+            want = le <= T
+            if r == want:
+                continue
+            if T == le:
+                return [ctx.bad(spec, "a header whose hash equals the target is rejected; consensus accepts hash ≤ target", fn, mod, key="pow-relation")]
+            if r == (be <= T) and (be <= T) != want:
+                return [ctx.bad(spec, "the hash is compared as a big-endian number of hash256(header) (the hash is a little-endian 256-bit integer)", fn, mod, key="pow-hash")]
+            if want and not r:
+                return [ctx.bad(spec, "a header with hash %s… is rejected under target %#x although hash ≤ target: a shortcut that is only implied by hash ≤ target for some "
+                                      "targets (e.g. leading zero bytes, for targets up to 2^224) fails valid headers of easier targets (regtest 207fffff, signet)" % (
+                                          h[::-1].hex()[:16], T), fn, mod, key="pow-early-reject")]
+            return [ctx.bad(spec, "a header with hash %s… is accepted under target %#x although hash > target" % (h[::-1].hex()[:16], T), fn, mod, key="pow-relation")]
+    ctx.count("cells", cells)
+    return [ctx.ok(spec, "a header is accepted iff hash ≤ target (%d hash/target cells)" % cells, fn, mod, key="pow-relation"),
+            ctx.ok(spec, "the hash is interpreted as a little-endian integer of hash256(header)", fn, mod, key="pow-hash")]
+
+
 def c17_6(ctx):
+    from sa.cells import Undecided
+    try:
+        return _check_pow_cells(ctx)
+    except Undecided:
+        pass
     spec = "block:Block.check_pow"
     mod, fn = rl.get(ctx, spec)
     cfg = cfg_of(fn)
@@ -239,7 +289,7 @@ def c17_6(ctx):
         if "little_endian_to_int(hash256(self.serialize()))" in hash_side:
             out.append(ctx.ok(spec, "the hash is interpreted as a little-endian integer of hash256(header)", v, mod, key="pow-hash"))
         else:
-            out.append(ctx.bad(spec, "the compared hash is `%s`, expected little_endian_to_int(hash256(serialize()))" % hash_side, v, mod, key="pow-hash"))
+            out.append(ctx.err(spec, "cannot relate the compared value `%s` to little_endian_to_int(hash256(serialize()))" % hash_side, v, mod))
     return out
 
 
